@@ -301,9 +301,15 @@ WF_SUB = {"steps": [{"label": "only", "ref": {"kind": "ValueFunction", "name": "
                      "inputs": {"a": "=parent.spec.size"}}]}
 
 READY_REFS = [("ValueFunction", "vf_ok1"), ("ValueFunction", "vf_ok2"), ("ResourceFunction", "rf_ok"), ("Workflow", "wf_sub")]
+# one name used by several kinds, some of them present, some not: a resource is (kind, name), never a name
+SHARED_REFS = [("ValueFunction", "bucket"), ("ResourceFunction", "bucket"), ("Workflow", "bucket"),
+               ("ValueFunction", "twin"), ("ResourceFunction", "twin"), ("Workflow", "twin")]
+SHARED_READY = {("ValueFunction", "bucket"), ("Workflow", "bucket"), ("ResourceFunction", "twin")}
 REFS = [("ValueFunction", "vf_ok1"), ("ValueFunction", "vf_ok2"), ("ValueFunction", "vf_bad"),
         ("ValueFunction", "vf_missing"), ("ResourceFunction", "rf_ok"), ("ResourceFunction", "rf_missing"),
-        ("Workflow", "wf_sub"), ("Workflow", "wf_missing")]
+        ("Workflow", "wf_sub"), ("Workflow", "wf_missing")] + SHARED_REFS
+NOT_READY = {("ValueFunction", "vf_bad"), ("ValueFunction", "vf_missing"), ("ResourceFunction", "rf_missing"),
+             ("Workflow", "wf_missing")} | (set(SHARED_REFS) - SHARED_READY)
 
 
 def setup_cache():
@@ -317,6 +323,9 @@ def setup_cache():
         await ku.offer_value_function("vf_bad", VF_BAD)
         await ku.offer_resource_function("rf_ok", RF_OK)
         await ku.offer_workflow("wf_sub", WF_SUB)
+        await ku.offer_value_function("bucket", VF_OK)
+        await ku.offer_workflow("bucket", WF_SUB)
+        await ku.offer_resource_function("twin", RF_OK)
 
     ku.run(go())
 
@@ -371,7 +380,11 @@ def gen_workflow(r):
         names_logic = []
         p_bad = 0.12
 
+        shared_name = r.choice(["bucket", "twin"]) if r.random() < 0.3 else None
+
         def pick_ref():
+            if shared_name and r.random() < 0.8:     # the same name under different kinds within one step
+                return r.choice([x for x in SHARED_REFS if x[1] == shared_name])
             return r.choice(READY_REFS) if r.random() < 0.75 else r.choice(REFS)
 
         def place(prefix="="):
@@ -539,6 +552,17 @@ def workflow_oracle(spec, truth, got) -> str | None:
             for ref in tr["logic"]:
                 if tuple(ref) not in watched:
                     return f"step {labels[i]!r} names {ref[0]}:{ref[1]} which is not among the watched resources"
+            # a named Logic that is absent / unhealthy keeps the step from being prepared (for a refSwitch:
+            # the cases that are reachable, i.e. the last one of each `case` key)
+            live = tr["logic"]
+            if tr["is_switch"]:
+                cases = st["refSwitch"]["cases"]
+                last = {c["case"]: j for j, c in enumerate(cases)}
+                live = [tr["logic"][j] for j in sorted(last.values())]
+            for ref in live:
+                if tuple(ref) in NOT_READY and "deps" in res:
+                    return (f"step {labels[i]!r} names {ref[0]}:{ref[1]}, which is not available, "
+                            f"yet the step was prepared")
     if any_error and got["ready"] == "ok":
         return "an error step, yet the Workflow is reported ready"
     return None
